@@ -264,7 +264,7 @@ pub fn find_all(f: &[T], pred: &dyn Fn(&T) -> bool) -> Vec<usize> {
 
 pub const TREE_MUTATORS: &[&str] = &[
     "tag", "len+1", "len-1", "len0", "len-huge", "len-indef", "len-pad", "byte", "splice", "dup", "del", "swap",
-    "int", "time", "oid", "bitstr", "ber-subtree", "empty", "grow", "retag-string",
+    "int", "time", "oid", "bitstr", "ber-subtree", "empty", "grow", "retag-string", "addr",
 ];
 pub const RAW_MUTATORS: &[&str] = &["raw-flip", "raw-insert", "raw-delete", "raw-copy", "raw-set"];
 
@@ -623,6 +623,28 @@ pub fn mutate_tree(f: &mut Vec<T>, name: &str, rng: &mut Rng, pools: &Pools) -> 
                 }
                 Body::Cons(_) => return false,
             }
+            true
+        }
+        "addr" => {
+            // an address-sized BIT STRING (prefix, or one end of a range) set to a
+            // value at the edge of the address space, still valid DER: empty
+            // (a range end at the first / last address of the family), all
+            // ones, all zeros, a single leading one, full family length
+            let Some(i) = pick_where(f, rng, &|t| t.tag == 0x03 && matches!(&t.body, Body::Leaf(b) if b.len() <= 17)) else {
+                return false;
+            };
+            let t = node_mut(f, i).unwrap();
+            let n = *rng.pick(&[0usize, 0, 1, 2, 3, 4, 4, 5, 8, 15, 16, 16]);
+            let fill = *rng.pick(&[0x00u8, 0xFF, 0xFF, 0x80, 0x01, 0x7F, 0xFE]);
+            let mut b = vec![0u8];
+            b.extend(std::iter::repeat(fill).take(n));
+            if n > 0 && rng.chance(1, 3) {
+                let unused = rng.range(1, 7) as u8;
+                b[0] = unused;
+                let l = b.len();
+                b[l - 1] &= !((1u8 << unused) - 1);
+            }
+            t.body = Body::Leaf(b);
             true
         }
         "ber-subtree" => {
